@@ -62,7 +62,16 @@ def run(ctx):
     sc = pipeline.Scratch("c08")
     try:
         jobs = []
-        for name, cfg, inp, lang in pairs:
+        # generated programs (comments of every style at every position, literals, multi-line macros) under two fixed configs
+        from vlib import gen
+        gcfg = [sc.cfg(None, {"indent_columns": 4, "indent_with_tabs": 0}), sc.cfg(None, {"indent_columns": 3, "cmt_star_cont": "true"})]
+        gpairs = []
+        for i in range(60 if thorough else 14):
+            lang = ctx.rng.choice(["C", "CPP", "JAVA"])
+            lines, txt = gen.program(ctx.rng, lang, stats=ctx.hist)
+            p = sc.write(txt, {"C": ".c", "CPP": ".cpp", "JAVA": ".java"}[lang])
+            gpairs.append(("gen%d" % i, gcfg[i % 2], p, lang))
+        for name, cfg, inp, lang in gpairs + pairs:
             data = open(inp, "rb").read()
             if b"\x00" in data[:-1] or data[:2] in (b"\xff\xfe", b"\xfe\xff"):
                 continue
@@ -132,7 +141,7 @@ def run(ctx):
                 pos = term_ok(out, nl)
                 if pos >= 0:
                     obad += _viol(ctx, j, "stray CR/LF at output offset %d (expected only %r)" % (pos, nl),
-                                  key={"file": os.path.relpath(j.meta["src"], common.REPO), "enc": j.meta["enc"], "newlines": want,
+                                  key={"file": _rel(j.meta["src"]), "enc": j.meta["enc"], "newlines": want,
                                        "kind": "stray"})
             by_src.setdefault((j.meta["src"], j.meta["cfg"], want), {})[j.meta["enc"]] = (j, out)
         for (src, cfg, want), d in by_src.items():
@@ -143,7 +152,7 @@ def run(ctx):
                 ctx.case("commute:%s|%s|%s|%s" % (src, cfg, want, e))
                 if ref is not None and out != ref[1]:
                     obad += _viol(ctx, j, "format(convert_%s(x)) differs from format(x) under newlines=%s" % (e, want),
-                                  key={"file": os.path.relpath(src, common.REPO), "cfg": os.path.relpath(cfg, common.REPO),
+                                  key={"file": _rel(src), "cfg": _rel(cfg),
                                        "terminators": "lone-CR" if e in ("cr", "mixed") else e, "kind": "commute"})
         for (src, cfg, want), d in by_src.items():
             if want != "crlf":
@@ -152,14 +161,47 @@ def run(ctx):
                 o = by_src.get((src, cfg, "lf"), {}).get(e)
                 if o is not None and out != o[1].replace(b"\n", b"\r\n"):
                     obad += _viol(ctx, j, "output under newlines=crlf is not the lf output with terminators replaced (input encoding %s)" % e,
-                                  key={"file": os.path.relpath(src, common.REPO), "cfg": os.path.relpath(cfg, common.REPO),
+                                  key={"file": _rel(src), "cfg": _rel(cfg),
                                        "enc": e, "kind": "crlf-vs-lf"})
+        # --- newlines=auto with an inserted comment file (cmt_insert_file_header/footer): the inserted text is tokenized too, but
+        #     the terminator must still be the most frequent one of the INPUT
+        ibad = 0
+        icases = 0
+        for src_nl, hdr_nl in ((b"\r\n", b"\n"), (b"\n", b"\r\n"), (b"\r", b"\n"), (b"\r\n", b"\r")):
+            for opt in ("cmt_insert_file_header", "cmt_insert_file_footer"):
+                hdr = sc.write(b"/* inserted" + hdr_nl + b" * text" + hdr_nl + b" */" + hdr_nl, ".txt")
+                srcp = sc.write(src_nl.join([b"int a;", b"int b;", b"void f(void)", b"{", b"  a = b;", b"}", b"int c;", b""]), ".c")
+                c = sc.cfg(None, {"newlines": "auto", opt: '"%s"' % hdr})
+                r = unc.run(exe, c, srcp, "C")
+                icases += 1
+                ctx.case("insert:%s:%r:%r" % (opt, src_nl, hdr_nl))
+                if r["rc"] != 0:
+                    continue
+                out = r["out"]
+                cnt = count_terms(out)
+                want = {b"\n": "lf", b"\r\n": "crlf", b"\r": "cr"}[src_nl]
+                if b"inserted" not in out:
+                    ctx.count("insert:not-inserted")
+                    continue
+                if any(v for k, v in cnt.items() if k != want):
+                    ibad += 1
+                    ctx.violation("newlines=auto with %s: the input uses %s throughout, the inserted file %s; the output has %s"
+                                  % (opt, want, {b"\n": "lf", b"\r\n": "crlf", b"\r": "cr"}[hdr_nl], cnt),
+                                  {"input_bytes_hex": open(srcp, "rb").read().hex(), "inserted_hex": open(hdr, "rb").read().hex(),
+                                   "options": {"newlines": "auto", opt: "<path of the inserted file>"}}, key=None, found_input=True)
+        ctx.oblige("oracle: newlines=auto follows the input, not an inserted comment file (%d cases)" % icases, ibad == 0, "oracle")
         ctx.oblige("direct oracles (stray CR/LF scan, conversion commutes, crlf = lf with terminators replaced)", obad == 0, "oracle",
                    "%d failures" % obad)
         if jobs:
             ctx.sample({"run": jobs[0].name, "rc": jobs[0].res["rc"], "out_len": len(jobs[0].res["out"])})
     finally:
         sc.close()
+
+
+def _rel(p):
+    """path relative to the repository; generated inputs/configs (scratch files) are one class"""
+    r = os.path.relpath(p, common.REPO)
+    return "<generated>" if r.startswith("..") else r
 
 
 def _has_counted_break(j):
